@@ -91,6 +91,9 @@ static void apply(void *vs, int op)
 {
     st_t *s = vs; op_t *o = &OPS[op]; const char *shape = shape_for(s, o->x), *m;
     mc_set_shape(shape);
+    /* a caller looks up the greatest value before every operation (so every operation is preceded and followed by a lookup) */
+    if (s->v) { int gv = -1; for (int v = 0; v < NV; v++) if (s->cnt[v]) gv = v;
+        if (gv >= 0) { spif_obj_t p = S_(VAL[gv]); spif_obj_t f = SPIF_VECTOR_FIND(s->v, p); SPIF_OBJ_DEL(p); if (!f || owner(s, f, NULL) != gv) FAIL(site("find"), "model:return", "maximum value", "find(%s), asked between two operations, %s", VAL[gv], f ? "returned an element that is not a stored equal one" : "missed a stored element"); } }
     if (o->k == 2) {
         m = "done";
         if (!SPIF_VECTOR_DONE(s->v)) FAIL(site(m), "model:return", shape, "done returned FALSE");
@@ -233,7 +236,10 @@ static void big_case(uint64_t idx, void *ctx)
     for (int i = 0; i < n; i++) { int k = order == 0 ? i : (order == 1 ? n - 1 - i : (i % 2 ? n - 1 - i / 2 : i / 2)); snprintf(names[m], sizeof names[m], "k%05d", 2 * k + 10); model[m] = names[m]; SPIF_VECTOR_INSERT(v, S_(names[m])); m++; }
     static const char *extra_fmt[4] = { "k%05d", "k%05d", "k%05d", "k%05d" };
     int extra_key[4] = { 2 * n + 20, 0, 2 * n + 20, n + 11 };          /* new greatest, new smallest, duplicate of the (new) greatest, an odd key in the middle */
-    for (int e = 0; e < 4; e++) { snprintf(names[m], sizeof names[m], extra_fmt[e], extra_key[e]); model[m] = names[m]; SPIF_VECTOR_INSERT(v, S_(names[m])); m++; }
+    for (int e = 0; e < 4; e++) {
+        /* every key is looked up at every size the vector goes through (n, n+1, .. n+3: odd and even counts, with and without equal neighbours); sizes above 1100 only at the end */
+        if (n <= 1100) for (int i = 0; i < m; i++) { spif_obj_t p = S_(model[i]); spif_obj_t f = SPIF_VECTOR_FIND(v, p); if (!f || !is_str(f, model[i])) { FAIL(site("find"), "model:return", shape, "with %d elements find(\"%s\") %s", m, model[i], f ? "returned another element" : "missed a stored element"); SPIF_OBJ_DEL(p); break; } SPIF_OBJ_DEL(p); }
+        snprintf(names[m], sizeof names[m], extra_fmt[e], extra_key[e]); model[m] = names[m]; SPIF_VECTOR_INSERT(v, S_(names[m])); m++; }
     qsort(model, (size_t) m, sizeof model[0], cmpstr);
     if ((int) SPIF_VECTOR_COUNT(v) != m) FAIL(site("count"), "model:return", shape, "count=%d after %d inserts", (int) SPIF_VECTOR_COUNT(v), m);
     else {
